@@ -245,6 +245,23 @@ pub fn encode(f: &Frame) -> Vec<u8> {
     }
 }
 
+/// Encode a data frame with the variable-length header (SD2) even where the fixed-length forms
+/// SD1 / SD3 would be used normally: valid on the wire, never produced by profirust itself.
+pub fn encode_sd2_forced(f: &Frame) -> Vec<u8> {
+    let canonical = encode(f);
+    match canonical.first() {
+        Some(&SD1) | Some(&SD3) => {
+            let body = &canonical[1..canonical.len() - 2];
+            let le = body.len() as u8;
+            let mut out = vec![SD2, le, le, SD2];
+            out.extend_from_slice(body);
+            out.extend_from_slice(&canonical[canonical.len() - 2..]);
+            out
+        }
+        _ => canonical,
+    }
+}
+
 /// Decode the first frame of `buf`.
 pub fn decode(buf: &[u8]) -> Dec {
     if buf.is_empty() {
@@ -363,6 +380,20 @@ pub fn decode_exact(buf: &[u8]) -> Option<Frame> {
         Dec::Ok(f, n) if n == buf.len() => Some(f),
         _ => None,
     }
+}
+
+/// Is the whole byte string a sequence of valid frames?
+pub fn decode_exact_multi(mut buf: &[u8]) -> bool {
+    if buf.is_empty() {
+        return false;
+    }
+    while !buf.is_empty() {
+        match decode(buf) {
+            Dec::Ok(_, n) => buf = &buf[n..],
+            _ => return false,
+        }
+    }
+    true
 }
 
 /// Convert a telegram decoded by profirust into a `Frame` (plain data conversion).
